@@ -300,6 +300,19 @@ fn families_of(prop: &str, tier: Tier) -> Vec<Cfg> {
             ek.max_reqs = 3;
             ek.dev = 2;
             v.push(ek);
+            // a write that accepts nothing (Ok(0)) in the middle of a packet left half written by a dropped call, then
+            // disconnect() or any other call
+            let mut wz = Cfg::base("C01-write-accepting-nothing-inside-a-packet");
+            wz.props = vec!["C01"];
+            wz.ops = vec![OpK::Pub1, OpK::Pub0, OpK::Poll, OpK::Disconnect];
+            wz.io = IoMenu::partial();
+            wz.io.write_zero = true;
+            wz.cancel = true;
+            wz.max_ops = if q { 4 } else { 5 };
+            wz.max_conns = 1;
+            wz.max_reqs = 2;
+            wz.dev = 3;
+            v.push(wz);
             // credentials in their unusual legal forms: user name with a zero-length password, with and without a will
             for (name, will) in [("C01-connect-with-user-name-and-empty-password", false), ("C01-connect-with-empty-password-and-will", true)] {
                 let mut h = Cfg::base(name);
@@ -438,7 +451,20 @@ fn families_of(prop: &str, tier: Tier) -> Vec<Cfg> {
             g.max_conns = 3;
             g.max_reqs = 2;
             g.dev = 1;
-            vec![a, b, c, d, e, f, g]
+            // identifiers straddling the wrap of the 16-bit counter (the older request has the larger identifier)
+            let mut wr = Cfg::base("C02-identifiers-straddling-the-wrap");
+            wr.props = vec!["C02"];
+            wr.start_pid = Some(65534);
+            wr.ops = vec![OpK::Pub1, OpK::Poll, OpK::DropConn];
+            wr.io = IoMenu::benign();
+            wr.io.write_pending = true;
+            wr.cancel = true;
+            wr.broker.reorder_window = 3;
+            wr.max_ops = if q { 7 } else { 8 };
+            wr.max_conns = if q { 2 } else { 3 };
+            wr.max_reqs = 4;
+            wr.dev = 1;
+            vec![a, b, c, d, e, f, g, wr]
         }
         "C03" => {
             let mut a = Cfg::base("C03-qos2-orders-and-crashes");
@@ -529,7 +555,17 @@ fn families_of(prop: &str, tier: Tier) -> Vec<Cfg> {
             st.max_conns = if q { 2 } else { 3 };
             st.max_reqs = 2;
             st.dev = if q { 1 } else { 2 };
-            vec![a, b, c, d, e, f, st]
+            let mut wr = Cfg::base("C03-identifiers-straddling-the-wrap");
+            wr.props = vec!["C03"];
+            wr.start_pid = Some(65534);
+            wr.ops = vec![OpK::Pub2, OpK::Poll, OpK::DropConn];
+            wr.io = IoMenu::benign();
+            wr.broker.reorder_window = 3;
+            wr.max_ops = if q { 8 } else { 9 };
+            wr.max_conns = if q { 2 } else { 3 };
+            wr.max_reqs = 3;
+            wr.dev = 0;
+            vec![a, b, c, d, e, f, st, wr]
         }
         "C04" => {
             let mut a = Cfg::base("C04-inbound-qos012-interleaved");
@@ -1109,6 +1145,25 @@ fn families_of(prop: &str, tier: Tier) -> Vec<Cfg> {
             t.max_reqs = 0;
             t.dev = 0;
             v.push(t);
+            // the table of retained requests full (eight unanswered publishes or subscriptions, plenty of arena left)
+            // when the connection is lost
+            let mut ft = Cfg::base("C12-eight-requests-in-flight-at-connection-loss");
+            ft.props = vec!["C12"];
+            ft.ops = vec![OpK::Poll, OpK::Pub1, OpK::DropConn, OpK::MarkDead];
+            ft.io = IoMenu::benign();
+            ft.broker.fifo = true;
+            ft.broker.reorder_window = 1;
+            ft.broker.bad_handshake = true;
+            ft.tx = 1024;
+            ft.preludes = vec![
+                vec![OpK::Pub1; 8],
+                vec![OpK::Sub, OpK::Sub, OpK::Sub, OpK::Sub, OpK::Unsub, OpK::Unsub, OpK::Pub2, OpK::Pub1],
+            ];
+            ft.max_ops = if q { 11 } else { 12 };
+            ft.max_conns = 3;
+            ft.max_reqs = 9;
+            ft.dev = 1;
+            v.push(ft);
             for (tx, pay) in [(96usize, 80usize), (64, 40), (48, 30)] {
                 if q && tx != 96 {
                     continue;
@@ -1465,6 +1520,18 @@ fn families_of(prop: &str, tier: Tier) -> Vec<Cfg> {
             rl.max_conns = if q { 2 } else { 3 };
             rl.max_reqs = if q { 3 } else { 4 };
             rl.dev = 0;
+            // inbound publishes exactly as long as the receive buffer (the Maximum Packet Size the client advertised)
+            let mut ex = Cfg::base("C16-inbound-publish-exactly-the-size-of-the-receive-buffer");
+            ex.props = vec!["C16"];
+            ex.rx = 11;
+            ex.ops = vec![OpK::Poll, OpK::Recv, OpK::Pub1, OpK::DropConn];
+            ex.io = IoMenu::benign();
+            ex.io.read_partial = true;
+            ex.broker.script = vec![inpub(1, 21), inpub(2, 22), inpub(0, 0)];
+            ex.max_ops = if q { 6 } else { 7 };
+            ex.max_conns = 2;
+            ex.max_reqs = 1;
+            ex.dev = 1;
             let mut b = Cfg::base("C16-handshake-failures");
             b.props = vec!["C16"];
             b.ops = vec![OpK::Pub1, OpK::Pub2, OpK::Sub, OpK::Poll, OpK::DropConn];
@@ -1577,7 +1644,7 @@ fn families_of(prop: &str, tier: Tier) -> Vec<Cfg> {
             sk.max_conns = 2;
             sk.max_reqs = 1;
             sk.dev = 0;
-            vec![a, b, c, d, e, f, g, h, i, j, sk, rl]
+            vec![a, b, c, d, e, f, g, h, i, j, sk, rl, ex]
         }
         "C18" => {
             let mut a = Cfg::base("C18-status-after-every-step");
